@@ -65,3 +65,31 @@ contract("AbsoluteSequence.equals",
          loops={"L0": dict(fingerprint="for (self_pair, other_pair) in zip(self_pairings, other_pairings)", inv=[
              ("agree_so_far", f"forall(0, i, lambda k: {AGREE('k')})"), ("same_length", f"len({P0}) == len({P1})")])},
          props=["C17"])
+
+# ---------------------------------------------------------------- merge, event level (C15): the merged list is exactly the inputs' events
+# A second contract of the same function (suffix #events): callers keep using the protocol-level contract in sequence.py.
+SQ = "sequences[k]._messages"
+TIMED = lambda L: f"forall(0, len({L}), lambda w: not is_none({L}[w].time))"
+OWN_KEPT = f"len({M}) >= old(len({M})) and forall(0, old(len({M})), lambda j: {M}[j] == old({M}[j]))"
+OSQ = "old(sequences[k]._messages[j])"       # the inputs are read in the entry state (they are not written: frame)
+OLEN = "old(len(sequences[k]._messages))"
+INCLUDED = lambda hi: f"forall(0, {hi}, lambda k: forall(0, {OLEN}, lambda j: exists(0, len({M}), lambda p: {M}[p] == {OSQ})))"
+FROM_INPUTS = lambda hi: (f"forall(old(len({M})), len({M}), lambda p: exists(0, {hi}, lambda k: exists(0, {OLEN}, lambda j: {M}[p] == {OSQ})))")
+contract("AbsoluteSequence.merge#events", params={"self": "ref:AbsoluteSequence", "sequences": "list:ref:AbsoluteSequence"}, allocates=True,
+         requires=[TIMED(M), f"forall(0, len(sequences), lambda k: not is_none(sequences[k]) and {SQ} != {M} and {TIMED(SQ)})",
+                   f"sequences != {M} and forall(0, len(sequences), lambda k: sequences != {SQ})"],      # (typing: a list of sequences is not a list of messages)
+         modifies={"@lists": M},
+         ensures=[("every_input_event_present", INCLUDED("len(sequences)")),
+                  ("own_events_kept", f"forall(0, old(len({M})), lambda j: exists(0, len({M}), lambda p: {M}[p] == old({M}[j])))"),
+                  ("nothing_invented", f"forall(0, len({M}), lambda p: exists(0, old(len({M})), lambda j: {M}[p] == old({M}[j]))"
+                                       f" or exists(0, len(sequences), lambda k: exists(0, {OLEN}, lambda j: {M}[p] == {OSQ})))"),
+                  ("ordered_by_time", f"sorted_by_time({M})")],
+         loops={
+             "L0": dict(fingerprint="for sequence in sequences", inv=[("own_kept", OWN_KEPT), ("included", INCLUDED("i")), ("from_inputs", FROM_INPUTS("i")), ("timed", TIMED(M))]),
+             "L1": dict(fingerprint="for msg in [msg for msg in sequence._messages]", inv=[
+                 ("own_kept", OWN_KEPT), ("included", INCLUDED("loop_index('L0')")), ("timed", TIMED(M)),
+                 ("appended", f"len({M}) == entry(len({M})) + i and forall(entry(len({M})), len({M}), lambda p: {M}[p] == old(sequences[loop_index('L0')]._messages[p - entry(len({M}))]))"),
+                 ("appended_fwd", f"forall(0, i, lambda t: {M}[entry(len({M})) + t] == old(sequences[loop_index('L0')]._messages[t]))"),
+                 ("from_inputs", f"forall(old(len({M})), entry(len({M})), lambda p: exists(0, loop_index('L0'), lambda k: exists(0, {OLEN}, lambda j: {M}[p] == {OSQ})))")]),
+         },
+         props=["C15"])
